@@ -1,6 +1,6 @@
 From Coq Require Extraction.
 From Coq Require Import ExtrOcamlBasic.
 From OlaBase Require Import Bytes.
-From C03 Require Import Gen Model Model2 Model3 Model4.
+From C03 Require Import Gen Model Model2 Model3 Model4 Model5.
 Extraction Language OCaml.
-Extraction "model.ml" io_witness N.div_eucl init step run deref port_unum u_active sfind mem xinit xstep xrun sib_view yinit ystep yrun zinit zstep zrun route.
+Extraction "model.ml" io_witness N.div_eucl init step run deref port_unum u_active sfind mem xinit xstep xrun sib_view yinit ystep yrun zinit zstep zrun route winit wstep wrun.
